@@ -273,8 +273,13 @@ package websocket
 //@          (len(b) > 65535 ==> (*s.pendingFrames[n0])[1] & 127 == 127)
 //@   // ... carrying the caller's bytes (XOR the key stored in front of them for a client)
 //@   assert call (*Stream).Flush: s.role == RoleServer ==> (forall k :: 0 <= k && k < len(b) ==> (*s.pendingFrames[n0])[off + k] == old(b[k]))
-//@   assert call (*Stream).Flush: s.role == RoleClient ==> (forall k :: 0 <= k && k < len(b) ==>
-//@          (*s.pendingFrames[n0])[off + k] == old(b[k]) ^ (*s.pendingFrames[n0])[off - 4 + (k & 3)])
+//@   // (stated per length class: the payload offset is then a constant, 2 + {0,2,8} + 4 key bytes)
+//@   assert call (*Stream).Flush: [C16 client-short] s.role == RoleClient && len(b) <= 125 ==> (forall k :: 0 <= k && k < len(b) ==>
+//@          (*s.pendingFrames[n0])[6 + k] == old(b[k]) ^ (*s.pendingFrames[n0])[2 + (k & 3)])
+//@   assert call (*Stream).Flush: [C16 client-medium] s.role == RoleClient && len(b) > 125 && len(b) <= 65535 ==> (forall k :: 0 <= k && k < len(b) ==>
+//@          (*s.pendingFrames[n0])[8 + k] == old(b[k]) ^ (*s.pendingFrames[n0])[4 + (k & 3)])
+//@   assert call (*Stream).Flush: [C16 client-long] s.role == RoleClient && len(b) > 65535 ==> (forall k :: 0 <= k && k < len(b) ==>
+//@          (*s.pendingFrames[n0])[14 + k] == old(b[k]) ^ (*s.pendingFrames[n0])[10 + (k & 3)])
 //@   ensures [C15,C16 too-big] len(b) > old(s.maxMessageSize) ==> result == ErrMessageTooBig && len(s.pendingFrames) == n0 && !flushing
 //@   ensures [C08,C15,C16 refused] len(b) <= old(s.maxMessageSize) && old(s.state) != StateActive ==>
 //@           result == sonicerrors.ErrCancelled && len(s.pendingFrames) == n0 && !flushing && s.state == old(s.state)
